@@ -84,7 +84,7 @@ type Prop struct {
 
 var registry = map[string]*Prop{}
 
-func Register(p *Prop) { registry[p.ID] = p }
+func Register(p *Prop)    { registry[p.ID] = p }
 func Get(id string) *Prop { return registry[id] }
 func IDs() []string {
 	var ids []string
@@ -103,7 +103,9 @@ func MkCase(id string, spec interface{}) Case {
 	return Case{ID: id, Spec: bz}
 }
 
-func Rng(seed uint64, stream uint64) *rand.Rand { return rand.New(rand.NewPCG(seed, stream^0x9e3779b97f4a7c15)) }
+func Rng(seed uint64, stream uint64) *rand.Rand {
+	return rand.New(rand.NewPCG(seed, stream^0x9e3779b97f4a7c15))
+}
 
 // ---- known findings -------------------------------------------------------------
 
